@@ -8,11 +8,19 @@ RULE = ("non-trivial = a QR case with condition number > 1e3 or a zero in the fi
         "eigenvalue ratio > 0.5, or with an eigenvector that has a zero component (diagonal / block-diagonal / permuted), or eigenvalues of both signs; "
         "distinct by case text")
 LEVEL_TEXT = ("Theorems (Coq, over the reals, every dimension n >= 1): for a non-zero first column x the model of Householder_Matrix returns H = 1 - 2 u u^T with u well defined "
-              "(|x - alpha e1|^2 = 2(|x|^2 - alpha x0) >= 2|x|^2 > 0), alpha^2 = |x|^2, H symmetric, H^T H = 1 and H x = alpha e1; one sweep of the QR iteration is a similarity: "
-              "if A = Q R with Q^T Q = 1 then R Q = Q^T A Q, trace(R Q) = trace(A), and R Q is symmetric when A is (matrices as n x n index functions, tied to the list model by entry lemmas). "
+              "(|x - alpha e1|^2 = 2(|x|^2 - alpha x0) >= 2|x|^2 > 0), alpha^2 = |x|^2, H symmetric, H^T H = 1 and H x = alpha e1. "
+              "The whole column loop of QR_Decomposition (C15_Proofs_QR.v, induction over the passes with the invariant 'Q orthogonal, Q R = M, R zero below the diagonal in the finished columns, "
+              "R_submatrix = trailing block of R, finished diagonal entries non-zero'): for every n x n matrix M, n >= 1, the model returns (never exits), and if M is non-singular (M x = 0 -> x = 0; "
+              "implied by a left inverse) then in no pass the remaining pivot column is zero, Q^T Q = Q Q^T = 1, R i j = 0 for j < i with non-zero diagonal, and Q R = M entry by entry; "
+              "the same three clauses hold under the weaker, exactly stated pass-by-pass hypothesis qr_pivots_ok (no pass divides by zero); the overwriting R[j][i] = 0.0 changes nothing over the reals. "
+              "All sweeps of Eigenvalues: whatever the model returns for a non-singular square M is the diagonal of a matrix A = Q^T M Q with Q orthogonal that passed the code's convergence test, "
+              "there are n values, their sum is trace(M) exactly, every iterate is non-singular, and A is symmetric when M is; one sweep is the similarity R Q = Q^T A Q (trace and symmetry kept). "
+              "Non-vacuity: concrete non-singular 2 x 2 matrices (one symmetric), and Eigenvalues returns [a] on the 1 x 1 matrix (a), a <> 0. "
               "For x = 0 the code divides by zero (refuted-by-example in the float run: NaN). "
-              "Not theorems: that the loop of QR_Decomposition composes the reflections into an orthogonal Q and upper-triangular R for all n (only the single reflection and the exactness of the zeroing are proved), "
-              "convergence of the unshifted QR iteration, termination and accuracy of the inverse iteration, everything about rounding. "
+              "Not theorems: convergence of the unshifted QR iteration (that Eigenvalues returns instead of exiting after 200 sweeps, for n >= 2), that the returned diagonal is close to the eigenvalues "
+              "(only: diagonal of an orthogonally similar matrix whose sub-diagonal mass is below 1e-12 of the diagonal mass), the clause 'multiplies to the determinant' "
+              "(no theorem relates the model's Determinant to the product), termination and accuracy of the inverse iteration, everything about rounding "
+              "(in floating point Q^T Q = 1 and Q R = M hold only to rounding, and the zeros below the diagonal of R exist because the code writes them). "
               "Those clauses are covered by the differential run of the extracted model against the library (bit-identical) and by the S4 predicates on the library's output "
               "(Q^T Q = 1, R upper triangular, Q R = M; eigenvalues against an independent Jacobi routine, trace, exact-rational determinant; unit eigenvectors with M v = lambda v; termination within the runner's time bound).")
 LEVEL_NOTE = ("Coq 8.16.1 kernel, theorems over R (axioms of the real numbers as printed by Print Assumptions); hand-written model tied by differential correspondence "
